@@ -15,6 +15,7 @@ type SeqStats = Stats
 type SeqJob struct {
 	Property string
 	Name     string
+	Shards   int
 	// Run enumerates; it must honour ctx.Expired() and report through ctx.
 	Run func(ctx *SeqCtx)
 	// Replay re-executes one recorded case (Violation.Ops) and returns clause/detail.
@@ -34,6 +35,7 @@ type SeqCtx struct {
 	alphabet  []string
 	depthDone int
 	caseNo    int64
+	known     map[string]*Violation
 }
 
 // Mine reports whether the i-th top-level case belongs to this shard.
@@ -85,6 +87,16 @@ func (c *SeqCtx) Fail(clause, detail string, ops []string) {
 	if c.viol != nil {
 		return
 	}
+	if sig := c.job.Property + "/" + c.job.Name + "/" + clause; knownSigs[sig] {
+		if c.known == nil {
+			c.known = map[string]*Violation{}
+		}
+		if c.known[sig] == nil {
+			c.known[sig] = &Violation{Property: c.job.Property, Scenario: c.job.Name, Clause: clause, Detail: detail, Ops: ops,
+				Params: map[string]string{"engine": "seq", "job": c.job.Name}}
+		}
+		return
+	}
 	c.viol = &Violation{Property: c.job.Property, Scenario: c.job.Name, Clause: clause, Detail: detail, Ops: ops,
 		Params: map[string]string{"engine": "seq", "job": c.job.Name}}
 }
@@ -129,6 +141,7 @@ type seqResult struct {
 	Violation *Violation        `json:"violation,omitempty"`
 	Infra     string            `json:"infra,omitempty"`
 	Confirmed int               `json:"confirmed"`
+	Known     []*Violation      `json:"known_hits,omitempty"`
 }
 
 func runSeqJob(job *SeqJob, shard, nshards int, budget time.Duration) *seqResult {
@@ -146,6 +159,9 @@ func runSeqJob(job *SeqJob, shard, nshards int, budget time.Duration) *seqResult
 	ctx.st.Exhaustive = !ctx.st.TimedOut && ctx.viol == nil
 	ctx.st.WallS = time.Since(start).Seconds()
 	res := &seqResult{Scenario: job.Name, Violation: ctx.viol}
+	for _, v := range ctx.known {
+		res.Known = append(res.Known, v)
+	}
 	nt := ctx.nontriv
 	if nt > ctx.st.States {
 		nt = ctx.st.States
@@ -193,7 +209,10 @@ func bfs(ctx *SeqCtx, alphabet []string, depth int, exec func(hist []int) (claus
 				ctx.Case(steps, true, func() string { return strings.Join(names(nh), " ; ") })
 				if cl != "" {
 					ctx.Fail(cl, det, names(nh))
-					return
+					if ctx.viol != nil {
+						return
+					}
+					continue // a listed known finding: do not expand this state
 				}
 				if ctx.State(key) {
 					next = append(next, nh)
